@@ -11,3 +11,6 @@ int vs_mkstemp(char *tmpl) { return mkstemp(tmpl); }
 void *vs_mmap(void *a, size_t l, int p, int f, int fd, off_t o) { return mmap(a, l, p, f, fd, o); }
 int vs_munmap(void *a, size_t l) { return munmap(a, l); }
 int vs_close(int fd) { return close(fd); }
+#include <sys/uio.h>
+ssize_t vs_writev(int fd, const struct iovec *iov, int n) { return writev(fd, iov, n); }
+ssize_t vs_pwrite(int fd, const void *buf, size_t n, off_t o) { return pwrite(fd, buf, n, o); }
